@@ -566,6 +566,16 @@ func (w *World) scheduleCrashes() {
 			}
 		})
 	}
+	for i := range w.Plan.WebhookDown {
+		wd := w.Plan.WebhookDown[i]
+		w.Sim.At(w.at(wd.AtMs), fmt.Sprintf("webhook-down/%d", i), func() {
+			if w.faultsOff {
+				return
+			}
+			w.webhookDown = true
+			w.Sim.After(time.Duration(wd.DurMs)*time.Millisecond, "webhook-up", func() { w.webhookDown = false })
+		})
+	}
 	for i := range w.Plan.Relists {
 		rp := w.Plan.Relists[i]
 		w.Sim.At(w.at(rp.AtMs), fmt.Sprintf("relist/%d %s", i, rp.Res), func() {
